@@ -128,14 +128,25 @@ Theorem cellunion_cap_bound_conservative_under_H_CAPARITH : H_CAPARITH ->
 Proof. exact cu_cap_bound_conservative. Qed.
 Print Assumptions cellunion_cap_bound_conservative_under_H_CAPARITH.
 
-(** 8. Finding: the premise [chain_ok] (no NaN endpoint in an edge rectangle) cannot be dropped —
-    it fails on the unchanged code for nearly antipodal unit vertices on a near-polar circle. *)
-Theorem rect_bounder_nan_bound_refuted : exists a b,
+(** 8. Finding, repaired by /repo aed5357: before the fix the premise [chain_ok] (no NaN endpoint
+    in an edge rectangle) failed for nearly antipodal unit vertices on a near-polar circle; the
+    old formula is kept in the model as [*_old] only for this witness.  After the fix the two
+    replays have NaN-free bounds that contain the vertices and the pole. *)
+Theorem rect_bounder_nan_bound_old_refuted : exists a b,
   is_unit a = true /\ is_unit b = true /\
   s2_LatLng_IsValid (s2_LatLngFromPoint a) = true /\ s2_LatLng_IsValid (s2_LatLngFromPoint b) = true /\
-  edge_tag a b (s2_LatLngFromPoint a) (s2_LatLngFromPoint b) = 2%Z /\
-  go_isnan (r1_Interval_Hi (s2_Rect_Lat (rect_bound (bounder_run [a; b])))) = true /\
-  s2_Rect_ContainsPoint (rect_bound (bounder_run [a; b])) a = false /\
-  s2_Rect_ContainsPoint (rect_bound (bounder_run [a; b])) b = false.
-Proof. exact bounder_nan_refuted. Qed.
-Print Assumptions rect_bounder_nan_bound_refuted.
+  edge_tag_old a b (s2_LatLngFromPoint a) (s2_LatLngFromPoint b) = 2%Z /\
+  go_isnan (r1_Interval_Hi (s2_Rect_Lat (rect_bound (bounder_run_old [a; b])))) = true /\
+  s2_Rect_ContainsPoint (rect_bound (bounder_run_old [a; b])) a = false /\
+  s2_Rect_ContainsPoint (rect_bound (bounder_run_old [a; b])) b = false.
+Proof. exact bounder_nan_old_refuted. Qed.
+Print Assumptions rect_bounder_nan_bound_old_refuted.
+
+Theorem rect_bounder_witnesses_repaired :
+  (go_isnan (r1_Interval_Hi (s2_Rect_Lat (rect_bound (bounder_run [wit_a; wit_b])))) = false /\
+   s2_Rect_ContainsPoint (rect_bound (bounder_run [wit_a; wit_b])) wit_a = true /\
+   s2_Rect_ContainsPoint (rect_bound (bounder_run [wit_a; wit_b])) wit_b = true) /\
+  (s2_Rect_ContainsPoint (rect_bound (bounder_run_old [wit_c; wit_d])) north_pole = false /\
+   s2_Rect_ContainsPoint (rect_bound (bounder_run [wit_c; wit_d])) north_pole = true).
+Proof. exact bounder_witnesses_repaired. Qed.
+Print Assumptions rect_bounder_witnesses_repaired.
